@@ -105,6 +105,8 @@ def run(prop, tier, seed, plan, replay_dir=None, merge=False, full=False, only_l
                 cause = None
                 if idx in crashed:
                     cause = "crash:" + crashed[idx]
+                elif idx in hung and all(h.startswith("error_on_Errors:") for h in hung[idx]):
+                    cause = ",".join(sorted(set(hung[idx])))           # nothing hung: a value on Errors that no failure explains
                 elif idx in hung:
                     cause = "hang:" + ",".join(sorted(set(hung[idx])))
                 elif idx not in ok:
@@ -124,6 +126,8 @@ def run(prop, tier, seed, plan, replay_dir=None, merge=False, full=False, only_l
                         props |= {"C06", "C13"}      # a Close that never returns releases nothing
                 if "foreign_kernel_watches" in cause:
                     props |= {"C12", "C13", "C06"}      # an Add outlived Close and put its watches into the next Watcher's instance
+                if "error_on_Errors" in cause:
+                    props |= {"C10", "C06", "C14"}      # the reader used the descriptor after Close had closed it
                 if "closed channel" in cause or "racing_close" in cause:
                     props |= {"C06"}      # a call concurrent with Close must answer ErrClosed / nil, not with an error of the closed descriptor
                 if prop not in props:
